@@ -168,4 +168,8 @@ def run(ctx, rep) -> None:
     rep.attempt("same_recipe", same_recipe, ctx, rep, "C05.2")
     rep.attempt("who_may_write", who_may_write, ctx, rep, "C05.3", only_kinds=set(), include_params=True)
     rep.attempt("split_structure", split_structure, ctx, rep, "C05.4")
+    from .c04 import _change_guards
+
+    rep.rule("C05.6", "the masked parameter blocks handed to the update are re-derived whenever the set of gradients changes (guard on the selector itself, never on a count)")
+    rep.attempt("_change_guards", _change_guards, ctx, rep, "C05.6")
     rep.assume("merge_small_dims arithmetic, exact-once coverage, row-major order, the block-size bound and the invariance 'optimising blocks = optimising separate parameters' need execution and are NOT decided")
